@@ -76,6 +76,10 @@ func floodOp(i int, base string) workload.Op {
 // out - and only then is the history executed on the long-lived engines.
 func RunC13(ch *core.Chooser, env *Env) *Outcome {
 	out := newOutcome()
+	// rarely: the big-cache history (c13big.go)
+	if ch.Intn("hist.big", 500) == 499 {
+		return runC13Big(ch, env, out)
+	}
 	hosts := workload.PickHosts(ch)
 	maxLines, maxOps := 60, 120
 	if env.Thorough {
